@@ -228,7 +228,7 @@ func partConc(c *fw.Ctx, rt *routeTable) {
 			if !c.Thorough() && pw != "configured" {
 				continue
 			}
-			k := cfg{false, la, pw} // authn in force
+			k := cfg{Disable: false, LoopAuth: la, PW: pw} // authn in force
 			for _, r := range rt.Enum {
 				if !c.Thorough() && r.Path != route1 {
 					continue
